@@ -162,13 +162,43 @@ def base_grid(tier, monitors, gregory_only=False, meek_only=False, symtie=False,
             for seats in range(1, min(2, elig) + 1):
                 jobs.append(job(rule, opts, n, seats, 2 if n == 4 else 3, 6 if n == 4 else 6 + bump, monitors, B, withdrawn=wd,
                                 undeclared=und, symtie=symtie, weight=2))
+    # zero-free supports: every listed ballot line present at least once, so E.ballots is exactly the file's ballot list
+    # (a line of multiplicity 0 is otherwise still an element of the list the real code walks)
+    import itertools as _it3
+    from harness.universe import all_rankings
+    sup_rules = [('wigm', dict(FX2, display=0)), ('scotland', {}), ('wigm-prf-batch', {}), ('meek', {'arithmetic': 'fixed', 'precision': 3, 'omega': 2})]
+    if not quick:
+        sup_rules += [('wigm', dict(G44)), ('wigm-prf', {}), ('cfer', {}), ('cfer-batch', {}), ('mpls', {}),
+                      ('warren', {'arithmetic': 'fixed', 'precision': 3, 'omega': 2}), ('qpq', {})]
+    lines3 = all_rankings(3, 3)
+    # supports are ORDERED (the order of the lines in the file): one and two lines in every order, three lines in
+    # length-lexicographic order and reversed
+    sup2 = [list(c) for r in (1, 2) for c in _it3.permutations(lines3, r)]
+    sup3 = [list(c) for c in _it3.combinations(lines3, 3)]
+    sup3 = sup3 + [c[::-1] for c in sup3]
+    for rule, opts in sup_rules:
+        if not want(rule):
+            continue
+        if gregory_only and rule in ('meek', 'warren', 'meek-prf', 'qpq'):
+            continue
+        if meek_only and rule not in ('meek', 'warren', 'meek-prf'):
+            continue
+        three = (not quick) or rule == 'scotland'
+        sups = sup2 + (sup3 if three else [])
+        nchunk = (3 if quick else 6) * (2 if three and quick else 1)
+        Ns = 6 if quick else 7
+        for k in range(nchunk):
+            jobs.append(job(rule, opts, 3, 2, 3, Ns, monitors, B, symtie=symtie, supports=sups[k::nchunk], weight=6,
+                            name='%s %s n=3 seats=2 zero-free ordered supports of <=%d lines (chunk %d/%d, %d supports) N<=%d%s' % (
+                                rule, ','.join('%s=%s' % kv for kv in sorted(opts.items())), 3 if three else 2, k + 1, nchunk,
+                                len(sups[k::nchunk]), Ns, ' symbolic-tie-order' if symtie else '')))
     return jobs
 
 
 def bounds_text(jobs):
     ns = sorted(set(j['n'] for j in jobs))
     return dict(candidates=ns, ranking_length=sorted(set(j['maxlen'] for j in jobs)), ballots_max=max(j['N'] for j in jobs),
-                per_line_multiplicity='0..N (B = N)', seats=sorted(set(j['seats'] for j in jobs)),
+                per_line_multiplicity='0..N (B = N); 1..N in the zero-free support jobs', seats=sorted(set(j['seats'] for j in jobs)),
                 rules=sorted(set(j['rule'] for j in jobs)),
                 option_configurations=sorted(set('%s %s' % (j['rule'], sorted(j['opts'].items())) for j in jobs)),
                 withdrawn_sets=sorted(set(str(j.get('withdrawn')) for j in jobs)),
